@@ -12,7 +12,7 @@
 //! both ends on character boundaries; every error renders with miette's graphical handler.
 
 use crate::c12;
-use crate::corpus::{self, Base};
+use crate::corpus::{self, Base, Tight};
 use crate::real;
 use crate::reference;
 use indexmap::IndexMap;
@@ -382,13 +382,16 @@ pub fn run(args: &[String]) -> ! {
     let more = tier == Tier::Thorough;
     let set = corpus::base_docs(depth, reps, pairs);
     let subs = corpus::substitutes();
+    let subs_small = corpus::substitutes_small();
+    let scope = c12::tight_scope(tier, &subs_small);
     let parts: Vec<Stats> = set
         .docs
         .par_chunks(32)
         .map(|chunk: &[Base]| {
             let mut st = Stats::default();
+            let mut tight = Tight::default();
             for b in chunk {
-                c12::family(b, &subs, false, |kind, text| st.record(kind, &text));
+                c12::family(b, &subs, false, scope, &mut tight, |kind, text| st.record(kind, &text));
                 for_each_byte_fault(&corpus::join(&b.toks), more, |kind, text| st.record(kind, &text));
             }
             st
@@ -496,13 +499,14 @@ pub fn run(args: &[String]) -> ! {
         json!(format!(
             "fault enumeration around {} grammar-derived base documents (spine-exhaustive E(X,{depth}) for every non-terminal, R={reps}; thorough: plus ordered statement pairs) and {} \
              repository .wac files: all single-token deletions/duplications/swaps/substitutions ({} substitutes), subtree deletions and one-gap \
-             layout deviations of the base documents; for base documents and repository files all prefixes (character boundaries), all \
+             layout deviations of the base documents; {}; for base documents and repository files all prefixes (character boundaries), all \
              single-character substitutions by NUL, `\"`, `/`, DEL{}, all insertions of 12 multi-byte scalars at every token boundary and at the end; \
              the code-point sweep; {} nesting families at depths 2^1..2^17 in supervised workers (8 MiB stack, 5 s horizon). \
              distinct_nontrivial = distinct inputs (64-bit SipHash); every input is exactly one fault away from a well-formed or repository text",
             set.docs.len(),
             files.len(),
             subs.len(),
+            c12::tight_rule(scope),
             if more { " and `*`, LF, `%`, `@`, `é`" } else { "" },
             FAMILIES.len()
         )),
@@ -511,6 +515,9 @@ pub fn run(args: &[String]) -> ! {
     cov.insert("cap_hit".into(), json!(false));
     cov.insert("bound_completed".into(), json!({"depth": depth, "max_repetitions": reps, "statement_pair_depth": pairs, "max_nesting": 1 << 17}));
     cov.insert("inputs_by_fault_kind".into(), json!(st.by_kind));
+    let tight = c12::tight_by_kind(&st.by_kind);
+    cov.insert("tight_layout_texts".into(), json!(tight.values().sum::<u64>()));
+    cov.insert("tight_layout_texts_by_kind".into(), json!(tight));
     cov.insert("outcomes".into(), json!(st.outcomes));
     cov.insert("distinct_outcomes".into(), json!(st.outcomes.len()));
     cov.insert("nesting_families".into(), json!(nesting));
